@@ -108,6 +108,10 @@ def gen_route(rng, net, canonical=False):
     """A list of decisions that reduces the network to one tensor."""
     cur = {f"T{i}": list(t["legs"]) for i, t in enumerate(net["tensors"])}
     out = []
+    if not canonical and any("conj_of" in t for t in net["tensors"]) and rng.random() < 0.5:
+        # conjugates are taken only when first needed, i.e. after the kets (and
+        # the index objects they share) have already been through contractions
+        out.append({"op": "lazy"})
     k = 0
     while len(cur) > 1:
         ids = sorted(cur)
@@ -170,12 +174,32 @@ def gen_route(rng, net, canonical=False):
 LET = "abcdefghijklmnopqrstuvwxyz"
 
 
-def run_route(values, legs, decisions, stats=None, audit_cb=None):
-    """Execute a route. Returns (final value, final legs)."""
+def run_route(values, legs, decisions, stats=None, audit_cb=None, derived=None):
+    """Execute a route. Returns (final value, final legs). ``derived`` maps a
+    tensor id to (base id, how) for tensors that are conjugates of others."""
     cur = dict(values)
     lg = {k: list(v) for k, v in legs.items()}
+    orig = dict(values)
+    pending = {}
+    if derived and any(d["op"] == "lazy" for d in decisions):
+        for t, (base, how) in derived.items():
+            pending[t] = (base, how)
+            cur.pop(t, None)
+        if stats is not None:
+            stats["route.lazy_conjugates"] += 1
+
+    def need(t):
+        if t in pending:
+            base, how = pending.pop(t)
+            cur[t] = make_conj(orig[base], how)
+
     for d in decisions:
         op = d["op"]
+        if op == "lazy":
+            continue
+        for key in ("t", "ta", "tb"):
+            if key in d:
+                need(d[key])
         if op == "transpose":
             t = d["t"]
             if t not in cur:
@@ -247,6 +271,14 @@ def run_route(values, legs, decisions, stats=None, audit_cb=None):
         return None, None
     (t, v), = cur.items()
     return v, lg[t]
+
+
+def make_conj(base, how):
+    if how == "dagger":
+        return base.dagger()
+    if how == "conj_pd":
+        return base.conj(phase_dual=True)
+    return base.conj()
 
 
 def canonicalise(v, legs):
@@ -354,12 +386,7 @@ class C04(EngineBase):
                 base = vals.get(f"T{t['conj_of']}")
                 if base is None:
                     continue
-                if t["how"] == "dagger":
-                    vals[f"T{i}"] = base.dagger()
-                elif t["how"] == "conj_pd":
-                    vals[f"T{i}"] = base.conj(phase_dual=True)
-                else:
-                    vals[f"T{i}"] = base.conj()
+                vals[f"T{i}"] = make_conj(base, t["how"])
             else:
                 vals[f"T{i}"] = specs.build(t["spec"])
             legs[f"T{i}"] = list(t["legs"])
@@ -383,7 +410,9 @@ class C04(EngineBase):
         for r in sorted(st.routes):
             vals, legs = self._build(st)
             try:
-                v, lg = run_route(vals, legs, st.routes[r], st.stats, audit_cb)
+                derived = {f"T{i}": (f"T{t['conj_of']}", t["how"])
+                           for i, t in enumerate(st.net["tensors"]) if "conj_of" in t}
+                v, lg = run_route(vals, legs, st.routes[r], st.stats, audit_cb, derived)
             except HarnessError:
                 raise
             except Exception as e:  # noqa: BLE001
